@@ -109,19 +109,50 @@ def showObs (nt : Nat) : Obs → String
 structure SeqState where
   sys : Sys
   nthreads : Nat
+  pending : List (Nat × Op) := []    -- background operations that are blocked (thread, operation)
+
+/-- would this thread's next use of its command channel block?  (its first use, while a drain holds the
+    registry lock) -/
+def wouldBlock (sys : Sys) (t : Nat) : Bool := sys.regLocked && !(sys.th t).registered
 
 def seqStep (st : SeqState) (line : String) : SeqState × String :=
   match words line with
-  | ["case", _] => (⟨Sys.init, 0⟩, "case")
+  | ["case", _] => ({ sys := Sys.init, nthreads := 0 }, "case")
   | [_, "sleep", _] => (st, "ok")      -- the harness lets real time pass; nothing else happens
   | [_, "flushBegin"] => (st, "ok")    -- `flush()` called on a helper thread; it runs its cycle once no other is in progress
   | [_, "evNew", _, _, _] => (st, "ok") -- `Event::new(..)`: a value, no tracing call
+  -- background operations: started on their thread, they may block; `bgEnd` is where a blocked one takes effect
+  | t :: "bgBegin" :: rest =>
+    match t.toNat?, parseOp rest with
+    | some t, some op =>
+      if wouldBlock st.sys t then ({ st with pending := st.pending ++ [(t, op)] }, "bg blocked")
+      else
+        let (sys, obs) := exec st.sys t op
+        ({ st with sys := sys }, "bg done " ++ showObs st.nthreads obs)
+    | _, _ => (st, "bad-op parse")
+  | t :: "bgAfter" :: j :: rest =>
+    match t.toNat?, j.toNat?, parseOp rest with
+    | some t, some j, some op =>
+      if st.pending.any (·.1 == j) || wouldBlock st.sys t then ({ st with pending := st.pending ++ [(t, op)] }, "bg blocked")
+      else
+        let (sys, obs) := exec st.sys t op
+        ({ st with sys := sys }, "bg done " ++ showObs st.nthreads obs)
+    | _, _, _ => (st, "bad-op parse")
+  | [t, "bgEnd"] =>
+    match t.toNat? with
+    | some t =>
+      match st.pending.find? (·.1 == t) with
+      | some (_, op) =>
+        let (sys, obs) := exec st.sys t op
+        ({ st with sys := sys, pending := st.pending.filter (·.1 != t) }, showObs st.nthreads obs)
+      | none => (st, "bad-op no background operation")
+    | none => (st, "bad-op parse")
   | t :: rest =>
     match t.toNat?, parseOp rest with
     | some t, some op =>
       let nt := match op with | .spawn => max st.nthreads (t + 1) | _ => st.nthreads
       let (sys, obs) := exec st.sys t op
-      (⟨sys, nt⟩, showObs nt obs)
+      ({ st with sys := sys, nthreads := nt }, showObs nt obs)
     | _, _ => (st, "bad-op parse")
   | _ => (st, "bad-op parse")
 
